@@ -133,6 +133,15 @@ var c06HandCases = []string{
 	"9999-12-31\n    0:00 - ?\n",
 	"0000-01-01\n    <0:00 - ?\n",
 	"2020-01-03\n    #a=\"\xff\n",
+	// syntax errors on lines where control characters follow multi-byte text (the error report re-renders the line)
+	"2020-01-01\n\tÄrger über Rückfrage fürs Büro\t2h\n",
+	"2020-01-01\n\t中中中\tfoo\r\n\tx\n",
+	"2020-01-01\n    日本語日本語日本語\t\x01\x7f 1h\n",
+	"2020-01-01 ünï中文\t(8h!\n",
+	// very short files that begin like a byte-order mark, and a complete one
+	"\xef", "\xef\xbb", "\xef\xbb\xbf", "\xef\xbb\xbf2020-01-01\n", "\xfe\xff", "\xff\xfe2\x000\x00",
+	// a faulty line far longer than a terminal line, with the fault far to the right
+	"2020-01-01\n    1h " + strings.Repeat("long summary ", 20) + "\n    " + strings.Repeat("wörter ", 30) + "?? 8:00\n",
 	// the ends of the representable calendar combined with day-shifted times (warnings look at adjacent days)
 	"9999-12-31\n    23:00 - 1:00>\n",
 	"9999-12-31\n    0:30> - ?\n    1h\n",
@@ -237,6 +246,27 @@ func c06Text(c *fw.Ctx, fam string, idx int, text string) {
 			}
 		}
 		c.Mark(nil)
+	}
+	// --- the complete path from the file on disk to the rendered answer (read, parse, evaluate or report the errors):
+	// `klog total FILE` on the real context must complete for EVERY content
+	if len(text) < 5000 {
+		path := clidrv.WriteFile(fw.Scratch(), "c06raw.klg", text)
+		envs := []map[string]string{nil}
+		if fam == "hand" || idx%16 == 0 {
+			envs = append(envs, map[string]string{"NO_COLOR": "1"})
+		}
+		for _, env := range envs {
+			r := clidrv.Exec(clidrv.Home("home"), clidrv.Opts{Now: fixedNow, Env: env}, &cli.Total{InputFilesArgs: fileArgs(path)})
+			c.Count("file_level_runs", 1)
+			if r.Panicked {
+				viol("panic:file-level:"+fw.PanicSite(r.Stack), fmt.Sprintf("`klog total FILE` panicked on a file with the content %q: %v\n%s", shorten(text), r.PanicVal, r.Stack))
+				return
+			}
+			if len(errs) > 0 && (r.Code == 0 || r.Err == "") {
+				viol("errors-not-reported", fmt.Sprintf("the parser reports %d errors for %q but `klog total FILE` exits %d with the message %q", len(errs), shorten(text), r.Code, r.Err))
+				return
+			}
+		}
 	}
 	if len(errs) > 0 {
 		c.Outcome("rejected")
